@@ -222,9 +222,9 @@ Section WithSort.
       rewrite nth_repeat. split.
       + rewrite agg_fold_ne, !map_map. reflexivity.
       + intros b. rewrite agg_fold_bins, blookup_fold, parts_flat. simpl.
-        match goal with |- context [match ?X with [] => _ | _ :: _ => _ end] =>
-          assert (E : X = bin_parts j b xs) end.
-        { Show. admit. }
+        assert (E : flat_map (fun a : list (bin * sc) * Z => parts (fst a) b)
+                      (map (fun a : list agg => nth j a e0) (map x_aggs xs)) = bin_parts j b xs).
+        { unfold bin_parts, parts. rewrite map_map. rewrite !flat_map_concat_map, map_map. reflexivity. }
         rewrite E. destruct (bin_parts j b xs) as [|p ps] eqn:P; [reflexivity|].
         eexists; split; [reflexivity|]. apply (sc_fold_desc (p :: ps)).
   Qed.
